@@ -52,6 +52,8 @@ def judge_mutation(valid: str, mutated: str):
 
 
 def shard(args):
+    if args[0] == "after-activity":
+        return after_activity_shard(args)
     country, tier = args
     part = par.Part()
     c = reg.countries()[country]
@@ -178,6 +180,52 @@ def shard(args):
     return part.done()
 
 
+def after_activity_shard(args):
+    """One process: the API prelude, then for every country a reduced error enumeration (every
+    position, successor character, adjacent swaps), each preceded now and then by a refused
+    assembly call."""
+    from ..engine import activity
+    _, tier = args
+    part = par.Part()
+    part.stat("prelude_calls", activity.exercise_api(report.SEED))
+    for country in sorted(reg.countries()):
+        c = reg.countries()[country]
+        cl = bases.classes_of(c)
+        body = bases.bban(c, "distinct")
+        valid = bases.iban_text(country, body)
+        if lib.iban_parse(valid)[0] != "ok":
+            part.stat("skipped_base_not_accepted")
+            continue
+        lib.outcome(lib.IBAN.from_bban, country, body[:-1])
+        lib.outcome(lib.IBAN.generate, country, "1", "1-")
+        for p in range(2, len(valid)):
+            x = valid[p]
+            alpha = DIG if x in DIG else UP
+            for y in (alpha[(alpha.index(x) + 1) % len(alpha)], alpha[(alpha.index(x) + 7) % len(alpha)]):
+                if y == x or (p >= 4 and y not in reg.CLASS_CHARS[cl[p - 4]]):
+                    continue
+                m = valid[:p] + y + valid[p + 1:]
+                part.count(("after", m))
+                k, v = lib.iban_parse(m)
+                if k == "ok":
+                    part.violation("substitution-undetected [after API activity]",
+                                   {"kind": "c03", "valid": valid, "mutated": m, "how": "after the API prelude"},
+                                   "reject", (k, v))
+            if p + 1 < len(valid):
+                a, b = valid[p], valid[p + 1]
+                if a != b and (a in DIG) == (b in DIG):
+                    m = valid[:p] + b + a + valid[p + 2:]
+                    if p < 3 or c.matches(m[4:]):
+                        part.count(("after", m))
+                        k, v = lib.iban_parse(m)
+                        if k == "ok":
+                            part.violation("transposition-undetected [after API activity]",
+                                           {"kind": "c03", "valid": valid, "mutated": m,
+                                            "how": "after the API prelude"}, "reject", (k, v))
+    part.stat("after_activity_shards")
+    return part.done()
+
+
 def replay(case: dict) -> dict:
     if case.get("kind") == "c03seq":
         pc, m = case["partner"], case["mutated"]
@@ -189,7 +237,7 @@ def replay(case: dict) -> dict:
 def main(tier: str) -> int:
     run = report.Run(PID, tier, "exploration", RULE)
     countries = sorted(reg.countries())
-    par.run_shards(run, shard, [(c, tier) for c in countries])
+    par.run_shards(run, shard, [("after-activity", tier)] + [(c, tier) for c in countries])
     run.extra.update({"countries": len(countries), "error_bound": "one substitution or one adjacent "
                       "transposition per text", "fillers": "digits, letters" + (
                           ", distinct, max, seeded" if tier == "thorough" else "")})
